@@ -459,6 +459,15 @@ def quiet_picotool():
         pass
 
 
+def raised_below_code_under_test(tb):
+    """the exception came out of a call into picotool: below the last harness frame of the traceback there is a frame of the
+    tree under test (the raise itself may sit in a library picotool calls, e.g. the PNG reader)"""
+    root = os.path.abspath(REPO) + os.sep
+    mine = os.path.abspath(VERIF) + os.sep
+    last_harness = max([i for i, f in enumerate(tb) if os.path.abspath(f.filename).startswith(mine)] or [-1])
+    return any(os.path.abspath(f.filename).startswith(root) for f in tb[last_harness + 1:])
+
+
 class WorkerError(Exception):
     """an uncaught exception inside a parmap worker; in_repo = it was raised by the code under test"""
 
@@ -481,7 +490,7 @@ class _Guard:
             tb = traceback.extract_tb(e.__traceback__)
             root = os.path.abspath(REPO) + os.sep
             inner = [f for f in tb if os.path.abspath(f.filename).startswith(root)]
-            in_repo = bool(tb) and bool(inner) and os.path.abspath(tb[-1].filename).startswith(root)
+            in_repo = raised_below_code_under_test(tb)
             where = ('%s:%s' % (os.path.basename(inner[-1].filename), inner[-1].name)) if inner else ''
             return ('__worker_exception__', type(e).__name__, str(e)[:200], traceback.format_exc()[-3000:], in_repo, where)
 
